@@ -366,13 +366,25 @@ func CasesFor(u *Unit, g Group) []Case {
 			label := fmt.Sprintf("hand%d", k)
 			out = append(out, Case{Def: g.Placed.DefName, Variant: instgen.Variant{Doc: jx.Clone(d), Label: label, Path: "via-base"}})
 			if kind, _ := d.(J)["kind"].(string); kind != "" {
-				if _, ok := defs[kind]; ok {
-					out = append(out, Case{Def: kind, Variant: instgen.Variant{Doc: jx.Clone(d), Label: label, Path: "direct"}})
+				target := kind
+				if _, ok := defs[target]; !ok {
+					for dn, dv := range defs { // subtype named through x-class
+						if dj, _ := dv.(J); dj != nil && dj["x-class"] == kind {
+							target = dn
+						}
+					}
+				}
+				if _, ok := defs[target]; ok {
+					out = append(out, Case{Def: target, Variant: instgen.Variant{Doc: jx.Clone(d), Label: label, Path: "direct"}})
 				}
 			}
-			if _, ok := defs["PolyZoo"]; ok {
+			if _, ok := defs["PolyZoo"]; ok && g.Placed.DefName == "PolyAnimal" {
 				out = append(out, Case{Def: "PolyZoo", Variant: instgen.Variant{Doc: J{"star": jx.Clone(d)}, Label: label, Path: "in-property"}},
 					Case{Def: "PolyZoo", Variant: instgen.Variant{Doc: J{"all": []any{jx.Clone(d), jx.Clone(a.Docs[0])}}, Label: label, Path: "in-array"}})
+			}
+			if _, ok := defs["PolyDrawing"]; ok && g.Placed.DefName == "PolyShape" {
+				out = append(out, Case{Def: "PolyDrawing", Variant: instgen.Variant{Doc: J{"main": jx.Clone(d)}, Label: label, Path: "in-property"}},
+					Case{Def: "PolyDrawing", Variant: instgen.Variant{Doc: J{"shapes": []any{jx.Clone(d), jx.Clone(a.Docs[0])}}, Label: label, Path: "in-array"}})
 			}
 		}
 		return out
